@@ -199,6 +199,9 @@ pub fn c10(cx: &RunCtx) {
     c10_dom::<Dec>(cx);
     c10_dom::<Cpx>(cx);
     c10_dom::<Num>(cx);
+    // every name at the branch points, poles and range limits of any function (literal, constant-expression
+    // and placeholder spellings of the same argument)
+    crate::fam::critical_all(cx, &[Kind::Value, Kind::WellFormedErr, Kind::MustErrOk]);
 }
 
 // ---------------------------------------------------------------- C11
